@@ -2,6 +2,8 @@ import ReplicatProofs.Lemmas.RetryAttempts
 /-!
 Helper lemmas for C12: what `policy` answers, per backend, for each class of exception.
 -/
+set_option linter.unusedSimpArgs false
+set_option linter.unusedVariables false
 namespace Replicat.Retry
 
 /-- the decorator is there, catches the adapter's error class and has a positive `max_tries` -/
